@@ -49,8 +49,17 @@ func doRunSource(rq *Req) (resp *Resp) {
 				os.MkdirAll(filepath.Dir(filepath.Join(dir, rel)), 0o755)
 				os.WriteFile(filepath.Join(dir, rel), []byte(text), 0o644)
 			}
-			name = filepath.Join(dir, rq.Main)
-			src = rq.Files[rq.Main]
+			if rq.Main != "" {
+				name = filepath.Join(dir, rq.Main)
+				src = rq.Files[rq.Main]
+			} else {
+				// a one-liner (`pangaea -e src`) started in the directory of the files: no source path, relative paths resolve against the cwd
+				name = "<string>"
+				if wd, err := os.Getwd(); err == nil {
+					defer os.Chdir(wd)
+				}
+				os.Chdir(dir)
+			}
 		}
 		code := runscript.RunSource(src, name, strings.NewReader(rq.Stdin), &out)
 		resp.End = fmt.Sprintf("exit:%d", code)
